@@ -427,7 +427,7 @@ class Ctx:
             "wall_s": round(time.time() - self.t0, 1),
             "violations": self.violations,
         }
-        if os.environ.get("VERIF_REPO", "/repo").rstrip("/") != "/repo":
+        if os.environ.get("VERIF_REPO", "/repo").rstrip("/") != "/repo" or os.environ.get("VERIF_NO_EVIDENCE"):
             # a sensitivity run against a mutated scratch copy: evidence/ only ever describes /repo itself
             return 1 if self.violations else 0
         os.makedirs(os.path.join(VERIF, "evidence"), exist_ok=True)
